@@ -251,8 +251,9 @@ class RawMeshData:
         if self.faces.empty() : return # nothing to do
         
         # Create hard edges attribute for already existing edges
-        hard_edges = self.edges.create_attribute("hard_edges", bool)
-        for e in self.id_edges: hard_edges[e] = True
+        if not self.edges.has_attribute("hard_edges"): # data that already went through here keeps its flags
+            hard_edges = self.edges.create_attribute("hard_edges", bool)
+            for e in self.id_edges: hard_edges[e] = True
         
         edge_set = set([utils.keyify(e) for e in self.edges])
         for f in self.faces:
